@@ -110,9 +110,7 @@ def ensure_built(prop, extra_bins=()):
     with open(os.path.join(VERIF, ".build.lock"), "w") as lk:
         fcntl.flock(lk, fcntl.LOCK_EX)
         coq = os.path.join(VERIF, "coq")
-        if not os.path.exists(os.path.join(coq, "Makefile")):
-            _sh("coq_makefile -f _CoqProject -o Makefile", 120, coq)
-        rc, out = _sh(f"timeout 3000 make -j{NPROC} 2>&1 | tail -40", 3100, coq)
+        rc, out = _sh(f"sh {VERIF}/tools/build_coq.sh 2>&1 | tail -60", 3600, VERIF)
         props_v = os.path.join(coq, "theories", prop, "Props.v")
         props_vo = props_v + "o"
         b.obligations = len(re.findall(r"^\s*Theorem\s", open(props_v).read(), re.M))
@@ -376,11 +374,18 @@ class Check:
         # ---- verdict
         seen_known = set()
         for (c, fi, io, mo) in failing:
-            cmin = self.minimise(c) if not isinstance(c, dict) or not c.get("_noshrink") else c
-            try:
-                (_, o2, m2, fm2, fi2, _), = self.evaluate([cmin]) if not (isinstance(cmin, dict) and cmin.get("_extra")) else [(cmin, io, mo, [], fi, [])]
-            except Exception:
-                o2, m2, fi2 = io, mo, fi
+            is_extra = isinstance(c, dict) and c.get("_extra")
+            if is_extra:
+                cmin, fi2, io2, mo2 = c, fi, io, mo
+            else:
+                cmin = self.minimise(c)
+                try:
+                    (_, o2, m2, _fm2, fi2, _), = self.evaluate([cmin])
+                    io2, mo2 = _jsonable(self.canon(o2)), _jsonable(m2)
+                    if not fi2:
+                        cmin, fi2, io2, mo2 = c, fi, io, mo
+                except Exception:
+                    cmin, fi2, io2, mo2 = c, fi, io, mo
             kn = None
             for e in load_known():
                 if e.get("property") == self.ident and e.get("status") == "known" and self.match_known(e, cmin, fi2):
@@ -392,8 +397,7 @@ class Check:
                     known_lines.append(f"KNOWN-FINDING: property={self.ident} {kn['what']}")
                 continue
             path = self.write_replay("failing-input", cmin,
-                                     {"failed_clauses": fi2, "impl_obs": _jsonable(self.canon(o2)) if not isinstance(o2, list) or True else o2,
-                                      "model_obs": _jsonable(m2)})
+                                     {"failed_clauses": fi2, "impl_obs": io2, "model_obs": mo2})
             violations.append((path, ""))
             break   # one replay is enough
         if not violations and (not build.ok or disagree_first is not None or model_fail_first is not None):
